@@ -1,6 +1,38 @@
--- shard 25 of the closeness / tick-gap sweep (C06 (c), (e)): |tick| in [819200, 851968)
+-- shard 25 of the closeness / tick-gap sweep (C06 (c), (e)): |tick| in [819200, 851968), 16 blocks of 2^11
 import Proofs.Lemmas.ClosePred
 namespace Demeter.TickClose
 set_option maxRecDepth 100000 in
-theorem close_shard_25 : chkN closeSweepPred 819200 shardBits = true := by decide +kernel
+theorem close_blk_819200 : chkN closeSweepPred 819200 11 = true := by decide +kernel
+set_option maxRecDepth 100000 in
+theorem close_blk_821248 : chkN closeSweepPred 821248 11 = true := by decide +kernel
+set_option maxRecDepth 100000 in
+theorem close_blk_823296 : chkN closeSweepPred 823296 11 = true := by decide +kernel
+set_option maxRecDepth 100000 in
+theorem close_blk_825344 : chkN closeSweepPred 825344 11 = true := by decide +kernel
+set_option maxRecDepth 100000 in
+theorem close_blk_827392 : chkN closeSweepPred 827392 11 = true := by decide +kernel
+set_option maxRecDepth 100000 in
+theorem close_blk_829440 : chkN closeSweepPred 829440 11 = true := by decide +kernel
+set_option maxRecDepth 100000 in
+theorem close_blk_831488 : chkN closeSweepPred 831488 11 = true := by decide +kernel
+set_option maxRecDepth 100000 in
+theorem close_blk_833536 : chkN closeSweepPred 833536 11 = true := by decide +kernel
+set_option maxRecDepth 100000 in
+theorem close_blk_835584 : chkN closeSweepPred 835584 11 = true := by decide +kernel
+set_option maxRecDepth 100000 in
+theorem close_blk_837632 : chkN closeSweepPred 837632 11 = true := by decide +kernel
+set_option maxRecDepth 100000 in
+theorem close_blk_839680 : chkN closeSweepPred 839680 11 = true := by decide +kernel
+set_option maxRecDepth 100000 in
+theorem close_blk_841728 : chkN closeSweepPred 841728 11 = true := by decide +kernel
+set_option maxRecDepth 100000 in
+theorem close_blk_843776 : chkN closeSweepPred 843776 11 = true := by decide +kernel
+set_option maxRecDepth 100000 in
+theorem close_blk_845824 : chkN closeSweepPred 845824 11 = true := by decide +kernel
+set_option maxRecDepth 100000 in
+theorem close_blk_847872 : chkN closeSweepPred 847872 11 = true := by decide +kernel
+set_option maxRecDepth 100000 in
+theorem close_blk_849920 : chkN closeSweepPred 849920 11 = true := by decide +kernel
+theorem close_shard_25 : chkN closeSweepPred 819200 shardBits = true :=
+  (chkN_join _ 819200 14 (chkN_join _ 819200 13 (chkN_join _ 819200 12 (chkN_join _ 819200 11 close_blk_819200 close_blk_821248) (chkN_join _ 823296 11 close_blk_823296 close_blk_825344)) (chkN_join _ 827392 12 (chkN_join _ 827392 11 close_blk_827392 close_blk_829440) (chkN_join _ 831488 11 close_blk_831488 close_blk_833536))) (chkN_join _ 835584 13 (chkN_join _ 835584 12 (chkN_join _ 835584 11 close_blk_835584 close_blk_837632) (chkN_join _ 839680 11 close_blk_839680 close_blk_841728)) (chkN_join _ 843776 12 (chkN_join _ 843776 11 close_blk_843776 close_blk_845824) (chkN_join _ 847872 11 close_blk_847872 close_blk_849920))))
 end Demeter.TickClose
